@@ -324,6 +324,11 @@ class Contour(BaseObject):
 
     segments = property(_get_segments, doc="A list of all points in the contour organized into segments.")
 
+    def _removePointFreeingIdentifier(self, point):
+        self._points.remove(point)
+        if point.identifier is not None:
+            self.identifiers.discard(point.identifier)
+
     def removeSegment(self, segmentIndex, preserveCurve=False):
         """
         Remove the segment at **segmentIndex**. If
@@ -346,12 +351,12 @@ class Contour(BaseObject):
             and segment[-1].segmentType == "line"\
             and nextSegment[-1].segmentType == "line"):
             for point in segment:
-                self._points.remove(point)
+                self._removePointFreeingIdentifier(point)
             # if we're removing a move segment, we need to forward the move to
             # the next on curve
             if segment[-1].segmentType == "move":
                 for point in nextSegment[:-1]:
-                    self._points.remove(point)
+                    self._removePointFreeingIdentifier(point)
                 nextSegment[-1].segmentType = "move"
         # if have a curve, do the preservation
         else:
@@ -394,7 +399,7 @@ class Contour(BaseObject):
                 (nextOffCurve1X, nextOffCurve1Y), (nextOffCurve2X, nextOffCurve2Y), (nextOnCurveX, nextOnCurveY))
             # remove the segment
             for point in segment:
-                self._points.remove(point)
+                self._removePointFreeingIdentifier(point)
             # if the next segment type isn't a curve, make it one
             if not nextSegment[-1].segmentType == "curve":
                 nextSegment[-1].segmentType = "curve"
@@ -620,6 +625,12 @@ class Contour(BaseObject):
             else:
                 lastPoints = self._points[lastPointIndex:]
             newPoints = [self._pointClass(pos, segmentType=segmentType, smooth=smooth) for pos, segmentType, smooth in pointsToInsert]
+            # free the identifiers of the off curve points that are replaced
+            keptPoints = firstPoints + lastPoints
+            identifiers = self.identifiers
+            for point in self._points:
+                if point.identifier is not None and point not in keptPoints:
+                    identifiers.discard(point.identifier)
             self._points = firstPoints + newPoints + lastPoints
             self.dirty = True
         return insertionPoint, pointWillBeSmooth
